@@ -19,6 +19,7 @@ ResDefault == Q(1, 1000)
 WMaxQuick == {R0, Q(5,2)}
 WMaxAll == {R0, R1, Q(3,2), RI(3), Q(7,2)}
 WMaxTenth == {Q(1,2), Q(7,20)}
+WMaxNear == {RI(5), Q(3,2)}
 
 \* flow / reported current of branch i in the solution s of one monomial network mb, with the sign
 \* convention decided by the complete element (a lossy source reports generator direction)
@@ -40,7 +41,7 @@ Line(w) == LET full == NetAt(cs, w, Res) r == RefOf(Listed) IN
 HasSource == \E i \in DOMAIN cs : cs[i].kind \in SourceKinds
 Check == (ShapeC /\ HasSource) =>
    \A wm \in WMaxs :
-     LET fl == SortR(AllFreqs(cs, wm))
+     LET fl == FreqList(cs, wm, Res)
          lines == [j \in DOMAIN fl |-> Line(fl[j])]
      IN (\A j \in DOMAIN fl : lines[j].ok) =>
         /\ \A j \in DOMAIN fl : \A k \in DOMAIN lines[j].parts : lines[j].parts[k].thm
